@@ -10,6 +10,10 @@
 //!   detnp valid   -> `ok` | `err <msg>`: the world is a VALID WIT world = wit-parser accepts the text, the world can be
 //!                    selected, and the package encodes (wit-component) to a binary that wasmparser validates with all
 //!                    features on (this is where e.g. "cannot have more than 32 flags" is enforced)
+//!   detnp typesmerge -> `ok` then per TypeId ` <id>:<representative>:<TypeInfo before collect_equal_types>:<after>` (TypeInfo as the
+//!                    bit mask borrowed=1 owned=2 error=4 has_list=8 has_tuple=16 has_resource=32 has_borrow_handle=64
+//!                    has_own_handle=128) — the real `Types::analyze` + `Types::collect_equal_types` (every type may alias),
+//!                    input for the model's merge loop (C15)
 //!   detnp mddump  -> `ok <s-expression of the world as the Markdown generator will traverse it>` | `err <msg>`
 //!                    (input for the Coq model WB.Core.MdTotal; lang/opts fields are ignored)
 use std::cell::RefCell;
@@ -79,6 +83,34 @@ fn main() {
                 Ok(Ok(())) => writeln!(out, "ok").unwrap(),
                 Ok(Err(e)) => writeln!(out, "err {}", one_line(&format!("{e:#}"))).unwrap(),
                 Err(_) => writeln!(out, "err panic while validating").unwrap(),
+            }
+            continue;
+        }
+        if mode == "typesmerge" {
+            let r = std::panic::catch_unwind(|| -> anyhow::Result<String> {
+                use wit_bindgen_core::{TypeInfo, Types};
+                let (resolve, pkg) = genlib::parse_wit(&wit)?;
+                let w = resolve.select_world(&[pkg], world)?;
+                let bits = |i: TypeInfo| -> u32 {
+                    (i.borrowed as u32) | (i.owned as u32) << 1 | (i.error as u32) << 2 | (i.has_list as u32) << 3
+                        | (i.has_tuple as u32) << 4 | (i.has_resource as u32) << 5 | (i.has_borrow_handle as u32) << 6
+                        | (i.has_own_handle as u32) << 7
+                };
+                let mut types = Types::default();
+                types.analyze(&resolve);
+                let before: Vec<_> = resolve.types.iter().map(|(id, _)| (id, bits(types.get(id)))).collect();
+                types.collect_equal_types(&resolve, w, &|_| true);
+                let mut s = String::new();
+                for (id, b) in before {
+                    let rep = types.get_representative_type(id);
+                    s.push_str(&format!(" {}:{}:{}:{}", id.index(), rep.index(), b, bits(types.get(id))));
+                }
+                Ok(s)
+            });
+            match r {
+                Ok(Ok(s)) => writeln!(out, "ok{s}").unwrap(),
+                Ok(Err(e)) => writeln!(out, "err {}", one_line(&format!("{e:#}"))).unwrap(),
+                Err(_) => writeln!(out, "err panic in typesmerge").unwrap(),
             }
             continue;
         }
